@@ -242,8 +242,20 @@ def check(run):
                       'every collected object is registered through %s' % reg.split('.')[1], 'registration loop differs', I)
     # children are pushed for both composite kinds
     for key, klass in (('states', 'CompoundState'), ('parallel states', 'OrthogonalState')):
-        pushes = [c for c in q.calls(I) if isinstance(c.func, ast.Attribute) and c.func.attr == 'append' and dotted(c.func.value) == N['work']]
-        ok_ = any(("%s['%s']" % (N['sdata'], key)) in q.unparse(q.enclosing(c, ast.For).iter) and any(klass in a[1] and a[0] == 'truthy' for a in guard_atoms(c)) for c in pushes if q.enclosing(c, ast.For) is not None)
+        ok_ = False
+        for elt, it, conds, node in q.accumulations(I, N['work']):
+            if it is None or elt is None:
+                continue
+            it = strip_cast(it)
+            if not (isinstance(it, ast.Subscript) and q.unparse(it.value) == N['sdata']):
+                continue
+            # the key: a constant, or a local chosen per kind of composite state
+            for kv, kst in q.alternatives(I, it.slice):
+                if q.const_str(kv) != key:
+                    continue
+                ats = guard_atoms(kst if kst is not None else node)
+                if any(klass in a[1] and a[0] == 'truthy' and a[1].startswith('isinstance(') for a in ats) and not conds:
+                    ok_ = True
         run.check(ok_, r, ii.short, "children under '%s' are imported for %s" % (key, klass), 'children not traversed', I)
     yi = run.fn('import_from_yaml')
     Y = yi.node
@@ -286,9 +298,17 @@ def check(run):
         inner = c.func.value
         run.check(isinstance(inner, ast.Call) and inner.args and q.unparse(inner.args[0]) == 'SCHEMA.statechart' and not inner.keywords, r, yi.short,
                   'validated against SCHEMA.statechart, extra keys not ignored', 'schema object is %s' % q.unparse(inner)[:60], c)
-        st = q.enclosing_stmt(c)
         a0 = ic[0].args[0] if ic and ic[0].args else None
-        run.check(isinstance(st, ast.Assign) and isinstance(a0, ast.Name) and q.unparse(st.targets[0]) == a0.id, r, yi.short, 'the coerced data is what gets imported', 'differs', c)
+        def comes_from_validation(name, depth=0):
+            for st_, v in q.assigned_value(Y, name):
+                v = strip_cast(v)
+                if v is c:
+                    return True
+                if isinstance(v, ast.Name) and v.id != name and depth < 4 and comes_from_validation(v.id, depth + 1):
+                    return True
+            return False
+        run.check(isinstance(a0, ast.Name) and comes_from_validation(a0.id), r, yi.short, 'the coerced data is what gets imported',
+                  'the value handed to import_from_dict does not come from the schema validation', c)
     for builder in ('_import_state_from_dict', '_import_transition_from_dict'):
         for c in q.calls_to(run, I, {builder}):
             t = q.enclosing(c, ast.Try)
